@@ -184,17 +184,17 @@ func interEngine(raw json.RawMessage, _ []string) (any, error) {
 				}
 			}
 			// The number of finished statements cannot decrease.  Where the estimate for an OPEN line is
-		// too high (a statement whose here-document body is still being read ends, by its End(),
-		// before the body), a later line corrects it: take the minimum over the rest of the file.
-		for i := len(tr.Done) - 2; i >= 0; i-- {
-			if tr.Done[i] > tr.Done[i+1] {
-				if tr.Open[i] == 0 && tr.Unannotated == "" {
-					tr.Unannotated = fmt.Sprintf("line %d: %d statements finished, but only %d after the next line", i+1, tr.Done[i], tr.Done[i+1])
+			// too high (a statement whose here-document body is still being read ends, by its End(),
+			// before the body), a later line corrects it: take the minimum over the rest of the file.
+			for i := len(tr.Done) - 2; i >= 0; i-- {
+				if tr.Done[i] > tr.Done[i+1] {
+					if tr.Open[i] == 0 && tr.Unannotated == "" {
+						tr.Unannotated = fmt.Sprintf("line %d: %d statements finished, but only %d after the next line", i+1, tr.Done[i], tr.Done[i+1])
+					}
+					tr.Done[i] = tr.Done[i+1]
 				}
-				tr.Done[i] = tr.Done[i+1]
 			}
-		}
-		// ---- the real thing
+			// ---- the real thing
 			type runRes struct {
 				ev        [][]int
 				delivered []*syntax.Stmt
